@@ -1,5 +1,5 @@
 # replay of a bounded stand-in violation (C17/C02): re-run native/c17_decomp.py
 import sys
-print('graph_embed on random make_traceless (n=2, mean photon 0.5): U tanh(r) U^T proportional to the embedded matrix: True; mean photon per mode 0.11647')
+print('Interferometer(mesh=sun_compact) on block2+id (n=4, det=1.000000+0.000000j) raised ValueError: Input matrix must have determinant 1 to be decomposed into SU(2) parameters.')
 print('REPLAY-VIOLATION')
 sys.exit(1)
